@@ -988,3 +988,138 @@ def c06_g(ctx):
                   'for store in stores.values(): store.{}()'.format(name),
                   'OutputPool.{0} does not call {0}() on every store'.format(name), fn=m,
                   node=loops[0] if loops else m.node)
+
+
+@obligation('C06-h', 'T1 T11 T8', 'reopening keeps the file; saving a pool keeps its stores',
+            floor=6, necessary='a reopen that truncates, or a save that leaves the stores '
+                               'replaced by None, loses every stored batch')
+def c06_h(ctx):
+    cls = ctx.cls(NPY)
+    init = ctx.own_method(cls, '__init__')
+    ex = ctx.ex(init)
+    opens = [c for c in ctx.calls(init, name='open') if len(c.args) >= 2]
+    keep = [c for c in opens if ex.term(c.args[1]) == ('const', 'r+b')]
+    new = [c for c in opens if ex.term(c.args[1]) == ('const', 'w+b')]
+    ok = len(keep) == 1 and len(new) == 1
+    ctx.check(ok, init, 'two open modes', "'r+b' for an existing file, 'w+b' otherwise",
+              'the file is not opened with r+b (existing) / w+b (new)', fn=init,
+              node=opens[0] if opens else init.node)
+    if ok:
+        g = any(pol and t[0] == 'bool' and t[1] == 'and' and
+                any(match(x, pattern('os.path.exists(self.filename)')) is not None for x in t[2])
+                and any(match(x, pattern('_t is False')) is not None or
+                        match(x, pattern('not _t')) is not None for x in t[2])
+                for (t, pol, _) in ctx.guards(init, keep[0]))
+        ctx.check(g, init, 'existing file kept unless truncation is requested',
+                  "open(..., 'r+b') when truncate is False and the file exists",
+                  'an existing file is not reopened in place exactly when truncate is False',
+                  fn=init, node=keep[0])
+        rd = [c for c in ctx.calls(init) if any(
+            any('read_array_header' in src(n.func) for n in own_nodes(t.node)
+                if isinstance(n, ast.Call)) for t in ctx.cg.resolve(init, c))]
+        okr = bool(rd) and ctx.must_follow(init, keep[0], rd) and \
+            not any(cfg_of(init).exists_path(ctx.node(init, new[0]), ctx.node(init, r))
+                    for r in rd)
+        ctx.check(okr, init, 'header read back after reopening', 'r+b then read the header',
+                  'a reopened file is not initialised from its header', fn=init,
+                  node=rd[0] if rd else keep[0])
+        tr = [s for s in own_nodes(init.node) if isinstance(s, ast.Assign) and
+              isinstance(s.targets[0], ast.Name) and s.targets[0].id == 'truncate' and
+              ex.term(s.value) == ('const', True)]
+        okt = bool(tr) and all(any(pol and match(t, pattern('array is not None')) is not None
+                                   for (t, pol, _) in ctx.guards(init, s)) for s in tr)
+        ctx.check(okt, init, 'an initial array starts a new file', 'truncate = True when an array '
+                  'is given', 'an initial array does not start a fresh file', fn=init,
+                  node=tr[0] if tr else init.node)
+    ss = ctx.own_method(cls, '__setstate__')
+    exs = ctx.ex(ss)
+    cs = ctx.calls(ss, resolved_to=init)
+    ok = bool(cs) and all(len(c.args) == 1 and not c.keywords for c in cs)
+    ctx.check(ok, ss, 'unpickling reopens without truncating', '__init__(filename) only',
+              'unpickling passes truncate / array to __init__', fn=ss, node=cs[0] if cs else ss.node)
+    gs = ctx.own_method(cls, '__getstate__')
+    rr = [r for r in own_nodes(gs.node) if isinstance(r, ast.Return)]
+    ok = bool(rr) and all(ctx.term(gs, r.value) == ('dict', ((('const', 'filename'),
+                                                                pattern_term_('self.filename')),))
+                          for r in rr)
+    ctx.check(ok, gs, 'state is the file name', "{'filename': self.filename}",
+              'the pickled state is not the file name alone', fn=gs, node=rr[0] if rr else gs.node)
+    # OutputPool.save / open
+    P = ctx.cls('elfi.store:OutputPool')
+    sv = ctx.own_method(P, 'save')
+    exv = ctx.ex(sv)
+    sets = [s for (s, t, k) in ctx.stores(sv, 'self.stores') if isinstance(s, ast.Assign)]
+    blank = [s for s in sets if match(exv.term(s.value), pattern('dict.fromkeys(_)')) is not None]
+    restore = [s for s in sets if s not in blank]
+    dumps = ctx.calls(sv, 'pickle.dump(self, *_)')
+    ok = len(blank) == 1 and len(restore) == 1 and len(dumps) == 1 and \
+        ctx.must_precede(sv, blank, dumps[0]) and ctx.must_follow(sv, dumps[0], restore)
+    if ok:
+        rv = exv.term(restore[0].value)
+        ok = rv == pattern_term_('self.stores') or rv[0] in ('attr',)
+    ctx.check(ok, sv, 'stores restored after the pool itself was pickled',
+              'stores = self.stores; self.stores = blanks; dump(self); self.stores = stores',
+              'save() does not put the real stores back after pickling the pool without them',
+              fn=sv, node=restore[0] if restore else sv.node)
+    per = [c for c in ctx.calls(sv, 'pickle.dump(*_)') if c not in dumps]
+    ok = False
+    for c in per:
+        lo = enclosing_loop_(c)
+        if isinstance(lo, ast.For) and match(exv.term(lo.iter, cfg_of(sv).by_stmt[id(lo)]),
+                                             pattern('self.stores.items()')) is not None:
+            a0 = exv.term(c.args[0])
+            if a0[0] == 'item' and a0[2] == 1:
+                ok = True
+    ctx.check(ok and bool(dumps) and all(
+        cfg_of(sv).exists_path(ctx.node(sv, c), ctx.node(sv, dumps[0])) and
+        not cfg_of(sv).exists_path(ctx.node(sv, dumps[0]), ctx.node(sv, c)) for c in per) and
+        all(not cfg_of(sv).exists_path(ctx.node(sv, b), ctx.node(sv, c)) for b in blank
+            for c in per), sv,
+              'every store pickled next to the arrays', 'for node, store in stores.items(): dump',
+              'save() does not pickle every store (before blanking them)', fn=sv,
+              node=per[0] if per else sv.node)
+    g = any(any(pol and match(t, pattern('not self.has_context')) is not None or
+                pol is False and match(t, pattern('self.has_context')) is not None
+                for (t, pol, _) in ctx.guards(sv, r)) for r in ctx.stmts(sv, ast.Raise))
+    ctx.check(g, sv, 'context required', 'raises without context', 'a pool without context can be '
+              'saved', fn=sv, node=sv.node)
+    op = ctx.own_method(P, 'open')
+    exo = ctx.ex(op)
+    st = [s for (s, t, k) in ctx.stores(op, '_.stores[_]') if isinstance(s, ast.Assign)]
+    ok = False
+    for s in st:
+        v = exo.term(s.value)
+        key = exo.term(s.targets[0].slice)
+        if contains(v, 'pickle.load(_)') and key[0] == 'elem' and \
+                contains(v, "_ + '.pkl'") and key in set(subterms(v)):
+            ok = True
+    ctx.check(ok, op, 'every store loaded back under its node', "stores[node] = load(node + '.pkl')",
+              'open() does not load each store back under its own node name', fn=op,
+              node=st[0] if st else op.node)
+    nm = [s for (s, t, k) in ctx.stores(op, '_.name') if isinstance(s, ast.Assign)]
+    ok = bool(nm) and exo.term(nm[0].value) == ('param', 'name')
+    ctx.check(ok, op, 'pool renamed to where it was found', 'pool.name = name', '', fn=op,
+              node=nm[0] if nm else op.node)
+    ap = ctx.cls('elfi.store:ArrayPool')
+    mk = ap.methods.get('_make_store_for')
+    if mk is not None:
+        ctx.touch(mk)
+        exm = ctx.ex(mk)
+        rr = [r for r in own_nodes(mk.node) if isinstance(r, ast.Return) and r.value is not None]
+        ok = bool(rr) and match(exm.term(rr[-1].value),
+                                pattern('NpyStore(os.path.join(self.path, node), self.batch_size)')) \
+            is not None
+        ctx.check(ok, mk, 'array store per node under the pool path',
+                  'NpyStore(join(path, node), batch_size)',
+                  'the default store of an ArrayPool is not NpyStore(path/node, batch_size)',
+                  fn=mk, node=rr[-1] if rr else mk.node)
+
+
+def pattern_term_(srcp):
+    from .C04 import pattern_term
+    return pattern_term(srcp)
+
+
+def enclosing_loop_(n):
+    from .C04 import enclosing_loop
+    return enclosing_loop(n)
